@@ -18,19 +18,29 @@ Proof. unfold line. induction (combine xs vs) as [|p l IH]; cbn; [reflexivity|].
 Lemma lsum_0 phi l : lsum phi l 0 = sumf phi (map fst l).
 Proof. induction l as [|p l IH]; cbn; [reflexivity|]. rewrite IH, Rmult_0_l, Rplus_0_r. reflexivity. Qed.
 
-Lemma is_derive_lsum phi dphi l :
+Lemma is_derive_affine (x v : R) : is_derive (fun t : R => x + t * v) 0 v.
+Proof. auto_derive; [exact I | ring]. Qed.
+
+Lemma is_derive_line (phi : R -> R) (x v d : R) :
+  is_derive phi x d -> is_derive (fun t : R => phi (x + t * v)) 0 (d * v).
+Proof.
+  intros Hp.
+  assert (Hp' : is_derive phi (x + 0 * v) d) by (replace (x + 0 * v) with x by ring; exact Hp).
+  pose proof (is_derive_comp phi (fun t => x + t * v) 0 d v Hp' (is_derive_affine x v)) as Hd.
+  unfold scal in Hd; cbn in Hd. unfold mult in Hd; cbn in Hd.
+  replace (d * v) with (v * d) by ring. exact Hd.
+Qed.
+
+Lemma is_derive_lsum (phi dphi : R -> R) (l : list (R * R)) :
   (forall p, In p l -> is_derive phi (fst p) (dphi (fst p))) ->
   is_derive (lsum phi l) 0 (dsum dphi l).
 Proof.
-  induction l as [|[x v] l IH]; intros H; cbn [lsum dsum fst snd].
-  - apply is_derive_const.
-  - apply (is_derive_plus (fun t => phi (x + t * v)) (lsum phi l)).
-    + assert (Hc : is_derive (fun t : R => x + t * v) 0 v) by (auto_derive; [exact I | ring]).
-      assert (Hp : is_derive phi (x + 0 * v) (dphi x)).
-      { replace (x + 0 * v) with x by ring. apply (H (x, v)). left; reflexivity. }
-      pose proof (is_derive_comp phi (fun t => x + t * v) 0 (dphi x) v Hp Hc) as Hd.
-      unfold scal in Hd; cbn in Hd. unfold mult in Hd; cbn in Hd.
-      replace (dphi x * v) with (v * dphi x) by ring. exact Hd.
+  induction l as [|[x v] l IH]; intros H.
+  - apply (is_derive_ext (fun _ : R => 0)); [reflexivity|]. cbn [dsum].
+    apply (@is_derive_const R_AbsRing R_NormedModule 0 0).
+  - apply (is_derive_ext (fun t => phi (x + t * v) + lsum phi l t)); [reflexivity|]. cbn [dsum fst snd].
+    apply (@is_derive_plus R_AbsRing R_NormedModule (fun t => phi (x + t * v)) (lsum phi l)).
+    + apply is_derive_line. apply (H (x, v)). left; reflexivity.
     + apply IH. intros p Hp. apply H. right; exact Hp.
 Qed.
 
